@@ -227,6 +227,17 @@ func runC11Driver(c bson.D, x *Ctx) (err error) {
 		}
 		return nil
 	}
+	// what is stored is what the reference semantics produce (a write that
+	// only changes the type of a number is a change too)
+	if want, rerr := ref.ApplyUpdate(before[0], upd, nil, false); rerr == nil {
+		if !equalUpToFieldOrder(after[0], want) {
+			return fmt.Errorf("UpdateOne with %s stored %s, reference semantics give %s", show(upd), show(after[0]), show(want))
+		}
+		if !equalUpToFieldOrder(want, before[0]) && res.ModifiedCount != 1 {
+			return fmt.Errorf("UpdateOne with %s changes the document (%s -> %s) but reports ModifiedCount = %d", show(upd), show(before[0]), show(want), res.ModifiedCount)
+		}
+		x.Class("stored-result-checked-against-reference")
+	}
 	changed := !bytesEq(after[0], before[0])
 	if res.MatchedCount != 1 {
 		return fmt.Errorf("MatchedCount = %d, want 1", res.MatchedCount)
